@@ -10,6 +10,7 @@ from ..dataflow import Flow, calls_in
 from ..interproc import bind_args, resolve_callees
 from ..openpath import OpenPath
 from ..symexpr import Undecidable, show_paths, summarize
+from .c01 import r5 as metadata_offsets
 from .c01 import r7 as chunk_key_agreement
 from .c07 import g3_threading
 
@@ -32,11 +33,14 @@ def run(chk, repo):
     chk.rule("C06-Q1", "records_per_chunk reaches both passes unchanged", 5)
     chk.rule("C06-Q2", "advertised chunk size = min(option, lines), exposed without arithmetic", 8)
     chk.rule("C06-Q3", "records_per_chunk is never persisted in the index", 1)
-    g3_threading(chk, op, "C06-Q1", options=("records_per_chunk",))
-    q2(chk, repo)
-    q3(chk, repo)
+    chk.attempt(g3_threading, chk, op, "C06-Q1", options=("records_per_chunk",))
+    chk.attempt(q2, chk, repo)
+    chk.attempt(q3, chk, repo)
     chk.rule("C01-R7", "one chunk size keys both the offsets table and the row grouping (C06-Q4)", 4)
-    chunk_key_agreement(chk, repo)
+    chk.attempt(chunk_key_agreement, chk, repo)
+    from ..records import Layouts
+    chk.rule("C01-R5", "metadata pass: chunk offsets advance by the bytes actually read, for every records_per_chunk (C06-Q5)", 4)
+    chk.attempt(metadata_offsets, chk, repo, Layouts(repo))
     chk.count("functions", len(op.reach))
 
 
